@@ -433,10 +433,28 @@ func (w *World) Make(kind string) ([]byte, string) {
 			{fsm.ParamSpaceVal, fsm.ParamMaxSlashPerCommittee, uint64(1 + rng.Intn(100))},
 			{fsm.ParamSpaceVal, fsm.ParamEarlyWithdrawalPenalty, uint64(rng.Intn(101))},
 			{fsm.ParamSpaceVal, fsm.ParamStakePercentForSubsidizedCommittee, uint64(1 + rng.Intn(100))},
-			{fsm.ParamSpaceGov, "daoRewardPercentage", uint64(rng.Intn(101))},
+			{fsm.ParamSpaceGov, "daoRewardPercentage", []uint64{0, 100, 1, uint64(rng.Intn(101))}[rng.Intn(4)]}, // boundary values often
 			{fsm.ParamSpaceFee, "sendFee", uint64(1 + rng.Intn(20000))},
+			{fsm.ParamSpaceGov, "daoRewardPercentage", uint64(rng.Intn(2)) * 100}, // the two ends of the legal range
+			{fsm.ParamSpaceVal, fsm.ParamEarlyWithdrawalPenalty, uint64(rng.Intn(2)) * 100},
 		}
 		c := opts[rng.Intn(len(opts))]
+		if rng.Intn(5) == 0 {
+			// a value the parameter space rejects only inside the handler (after fee deduction and after the cached
+			// parameter object was written): the transaction fails in the middle of the block
+			bad := []pc{
+				{fsm.ParamSpaceVal, fsm.ParamUnstakingBlocks, 0},
+				{fsm.ParamSpaceVal, fsm.ParamDelegateUnstakingBlocks, 0},
+				{fsm.ParamSpaceVal, fsm.ParamMaxPauseBlocks, 0},
+				{fsm.ParamSpaceVal, fsm.ParamNonSignWindow, 0},
+				{fsm.ParamSpaceVal, fsm.ParamMaxSlashPerCommittee, 0},
+				{fsm.ParamSpaceVal, fsm.ParamEarlyWithdrawalPenalty, 101},
+				{fsm.ParamSpaceVal, fsm.ParamMaxCommittees, 0},
+				{fsm.ParamSpaceGov, "daoRewardPercentage", 101},
+				{fsm.ParamSpaceFee, "sendFee", 0},
+			}
+			c = bad[rng.Intn(len(bad))]
+		}
 		a, _ := lib.NewAny(&lib.UInt64Wrapper{Value: c.val})
 		from := w.user()
 		start, end := h, h+uint64(1+rng.Intn(5))
